@@ -364,7 +364,7 @@ class SeededKernelLoop(LoopInv):
                     to_z3(calls[0][2]['sim_cells']) == I.ctx.ghost['n_active_spec']
 
 
-def kernel_case(which, seeded):
+def kernel_case(which, seeded, rank=2):
     brier = which == 'brier'
     if seeded:
         loop = SeededKernelLoop()
@@ -376,7 +376,8 @@ def kernel_case(which, seeded):
 
     class BK:
         qualname = BRIER_TEST if brier else BLL_TEST
-        case = '2-d rates (space x magnitude), %s' % ('seeded (numpy.random)' if seeded else 'injected random numbers')
+        case = '%s, %s' % ('2-d rates (space x magnitude)' if rank == 2 else '1-d rates (spatial)',
+                           'seeded (numpy.random)' if seeded else 'injected random numbers')
         properties = ('C06', 'C16')
         loops = {0: loop}
         oracle = 'kernel_test'
@@ -419,8 +420,12 @@ def kernel_case(which, seeded):
         def params(c):
             n0, n1, S, n = c.int('n_cells'), c.int('n_mags'), c.int('num_simulations'), c.int('n_active')
             c.ctx.assume(z3.And(n0 >= 1, n1 >= 1, S >= 1, n >= 0))
-            F = c.arr2_flat('forecast', 'float64', (n0, n1))
-            O = c.arr2_flat('observed', 'float64', (n0, n1))
+            if rank == 2:
+                F = c.arr2_flat('forecast', 'float64', (n0, n1))
+                O = c.arr2_flat('observed', 'float64', (n0, n1))
+            else:
+                F = c.arr('forecast', 'float64', n=n0)
+                O = c.arr('observed', 'float64', n=n0)
             U = None if seeded else c.arr2('random_numbers', 'float64', (S, n))
             c.ctx.ghost['kernel_rates'] = F
             c.ctx.ghost['n_active_spec'] = n
@@ -433,7 +438,7 @@ def kernel_case(which, seeded):
         def requires(c, forecast_data, observed_data, num_simulations, random_numbers, seed, verbose, _n, **kw):
             F, O, U = forecast_data, observed_data, random_numbers
             K = _size(F)
-            Ff, Of = F.flat_backing, O.flat_backing
+            Ff, Of = (F.flat_backing, O.flat_backing) if F.ndim == 2 else (F, O)
             i, j = z3.Ints('i!rq j!rq')
             # Brier: rates >= 0 with a positive total.  Binary log-likelihood: every rate positive (an event - observed or
             # simulated - in a zero-rate bin is the open finding D14: the masked bin is scored through its raw value)
@@ -468,10 +473,120 @@ def kernel_case(which, seeded):
                 yield 'quantile == fraction of simulated scores not exceeding the observed one', \
                     to_real(qs) * z3.ToReal(num_simulations) == z3.ToReal(le)
                 yield 'quantile in [0,1]', z3.And(to_real(qs) >= 0, to_real(qs) <= 1)
-    BK.__name__ = 'Kernel_%s_%s' % (which, 'seeded' if seeded else 'injected')
+    # ---- modular use by the public tests
+    def accepts(c, forecast_data, observed_data, num_simulations=1000, random_numbers=None, seed=None, **kw):
+        if not (isinstance(forecast_data, Arr) and isinstance(observed_data, Arr)) or hasattr(forecast_data, 'mask'):
+            return False
+        if forecast_data.ndim != rank or observed_data.ndim != rank:
+            return False
+        if rank == 2 and (getattr(forecast_data, 'flat_backing', None) is None or getattr(observed_data, 'flat_backing', None) is None):
+            return False
+        return (random_numbers is None) == seeded
+
+    def result(c, forecast_data, observed_data, num_simulations=1000, random_numbers=None, seed=None, **kw):
+        S = to_z3(num_simulations)
+        LLF = c.ctx.fresh_fun('kernel_sims', z3.IntSort(), z3.RealSort())
+        if seeded:
+            c.ctx.ghost['rng'] = c.ctx.fresh('rng_after_kernel', RNG)
+        return (c.ctx.fresh_real('kernel_quantile'), c.ctx.fresh_real('kernel_observed'), SymList(S, lambda s: LLF(to_z3(s)), 'kernel_sims'))
+
+    def call_requires(c, forecast_data, observed_data, num_simulations=1000, random_numbers=None, seed=None, verbose=True, **kw):
+        n = c.ctx.fresh_int('n_active_at_call')
+        c.ctx.assume(n == n_active_of(observed_data, _size(forecast_data)))
+        return BK._requires_impl(c, forecast_data, observed_data, to_z3(num_simulations), random_numbers, seed, verbose, n, **kw)
+
+    def call_ensures(c, r, forecast_data, observed_data, num_simulations=1000, random_numbers=None, seed=None, verbose=True, **kw):
+        n = c.ctx.fresh_int('n_active_at_call')
+        c.ctx.assume(n == n_active_of(observed_data, _size(forecast_data)))
+        return BK._ensures_impl(c, r, forecast_data, observed_data, to_z3(num_simulations), random_numbers, seed, verbose, n, **kw)
+
+    BK._requires_impl, BK._ensures_impl = staticmethod(BK.requires), staticmethod(BK.ensures)
+
+    def requires(c, forecast_data, observed_data, num_simulations=1000, random_numbers=None, seed=None, verbose=True, _n=None, **kw):
+        if _n is None:
+            return call_requires(c, forecast_data, observed_data, num_simulations, random_numbers, seed, verbose, **kw)
+        return BK._requires_impl(c, forecast_data, observed_data, num_simulations, random_numbers, seed, verbose, _n, **kw)
+
+    def ensures(c, r, forecast_data, observed_data, num_simulations=1000, random_numbers=None, seed=None, verbose=True, _n=None, **kw):
+        if _n is None:
+            return call_ensures(c, r, forecast_data, observed_data, num_simulations, random_numbers, seed, verbose, **kw)
+        return BK._ensures_impl(c, r, forecast_data, observed_data, num_simulations, random_numbers, seed, verbose, _n, **kw)
+
+    BK.accepts, BK.result = staticmethod(accepts), staticmethod(result)
+    BK.requires, BK.ensures = staticmethod(requires), staticmethod(ensures)
+    BK.__name__ = 'Kernel_%s_%s_%d' % (which, 'seeded' if seeded else 'injected', rank)
     return BK
 
 
 for _w in ('brier', 'binary'):
     for _sd in (False, True):
-        REG.add(kernel_case(_w, _sd))
+        REG.add(kernel_case(_w, _sd, 2))
+for _sd in (False, True):
+    REG.add(kernel_case('binary', _sd, 1))
+
+
+# ------------------------------------------------------------------ public tests (plumbing over the kernels)
+from contracts.evals import _abstract_forecast
+
+
+def public_case(module, fname, resname, which, spatial, seeded):
+    kernel = BRIER_TEST if which == 'brier' else BLL_TEST
+    brier = which == 'brier'
+
+    class Pub:
+        qualname = 'csep.core.%s.%s' % (module, fname)
+        case = 'abstract forecast / catalog, %s' % ('seeded' if seeded else 'injected random numbers')
+        properties = ('C16', 'C06')
+
+        def params(c):
+            from pyvc.core import Lam
+            fc, data, sc, mc, mags, n0, n1 = _abstract_forecast(c, 2)
+            S = c.int('num_simulations')
+            c.ctx.assume(S >= 1)
+            obs2 = c.arr2_flat('obs_counts', 'float64', (n0, n1))
+            obs_s = c.arr('obs_spatial', 'float64', n=n0)
+            cat = c.obj(None, spatial_counts=Lam(lambda *a, **k: obs_s), spatial_magnitude_counts=Lam(lambda *a, **k: obs2),
+                        name='cat', region=c.obj(None, magnitudes=mags))
+            F, O = (sc, obs_s) if spatial else (data, obs2)
+            n = c.int('n_active')
+            c.ctx.assume(n == n_active_of(O, _size(F)))
+            U = None if seeded else c.arr2('random_numbers', 'float64', (S, n))
+            return dict(gridded_forecast=fc, observed_catalog=cat, num_simulations=S, seed=(c.int('seed') if seeded else None),
+                        random_numbers=U, verbose=False, _v=dict(F=F, O=O, n=n))
+
+        def requires(c, gridded_forecast, observed_catalog, num_simulations, seed, random_numbers, verbose, _v):
+            kc = [k for k in REG.cases(kernel) if k.accepts(c, _v['F'], _v['O'], num_simulations, random_numbers, seed)][0]
+            return kc._requires_impl(c, _v['F'], _v['O'], num_simulations, random_numbers, seed, False, _v['n'])
+
+        def ensures(c, r, gridded_forecast, observed_catalog, num_simulations, seed, random_numbers, verbose, _v):
+            F, O = _v['F'], _v['O']
+            K = _size(F)
+            yield 'returns an evaluation result', z3.BoolVal(isinstance(r, Obj))
+            calls = c.calls(kernel)
+            yield 'the scores come from the test kernel (one call)', z3.BoolVal(len(calls) == 1)
+            if brier:
+                yield 'observed statistic == Brier score of the observed space-magnitude counts', \
+                    to_real(r.fields.get('observed_statistic')) * z3.ToReal(K) == -2 * brier_spec(F, lambda k: to_real(_flat(O, k)) > 0, K)
+            else:
+                yield 'observed statistic == binary joint log-likelihood of the observed %s counts' % (
+                    'spatial' if spatial else 'space-magnitude'), \
+                    to_real(r.fields.get('observed_statistic')) == bll_spec(F, lambda k: to_real(_flat(O, k)) != 0, K)
+            if calls:
+                loc, (qs, obs, sims) = calls[0][1], calls[0][2]
+                yield 'quantile and test distribution are those of the kernel', z3.BoolVal(
+                    r.fields.get('quantile') is qs and r.fields.get('test_distribution') is sims)
+                yield 'seed and random numbers are passed through', z3.BoolVal(
+                    loc.get('seed') is seed and loc.get('random_numbers') is random_numbers)
+                yield 'number of simulations passed through', to_z3(loc.get('num_simulations')) == num_simulations
+                if not brier:
+                    yield 'every simulation uses the observed number of active cells', z3.BoolVal(loc.get('use_observed_counts') is True)
+            yield 'name / status / names', z3.BoolVal(r.fields.get('name') == resname and r.fields.get('status') == 'normal'
+                                                      and r.fields.get('sim_name') == 'fc' and r.fields.get('obs_name') == 'cat')
+    Pub.__name__ = 'Pub_%s_%s' % (fname, 'seeded' if seeded else 'injected')
+    return Pub
+
+
+for _sd in (False, True):
+    REG.add(public_case('binomial_evaluations', 'binary_spatial_test', 'Binary S-Test', 'binary', True, _sd))
+    REG.add(public_case('binomial_evaluations', 'binary_conditional_likelihood_test', 'Binary CL-Test', 'binary', False, _sd))
+    REG.add(public_case('brier_evaluations', 'brier_score_test', 'Brier score-Test', 'brier', False, _sd))
